@@ -73,6 +73,9 @@ class Scenario:
             self.bw.log = ThreadLog()
             self.ns["LOG"] = self.bw.log
         self.ob = Observer(self.bw)
+        if world.get("argmap"):
+            self.ns["ARG"].update({k: self.bw.instance(c) for k, c in world["argmap"].items()})
+        self.budget = world.get("budget", 0)
         self.offender = offender
         self.off_fn = None
         if offender:
@@ -113,6 +116,28 @@ class Scenario:
             linecache.cache[fname] = (len(src), None, src.splitlines(True), fname)
             exec(compile(src, fname, "exec"), self.ns, self.ns)
             return self.ns[name]
+        if kind == "subclasshook":
+            import abc
+
+            state = {"n": 0, "armed": True, "at": off.get("n", 1)}
+            self.hookstate = state
+            members = tuple(self.bw.classes[c] for c in off.get("members", [2, 3]))
+
+            class HookABC(abc.ABC):
+                @classmethod
+                def __subclasshook__(cls, C):
+                    state["n"] += 1
+                    if state["armed"] and state["n"] == state["at"]:
+                        raise RuntimeError("user subclass hook failure")
+                    return any(issubclass(C, m) for m in members) or NotImplemented
+
+            HookABC.__module__ = "vfworld"
+            self.ns["HABC"] = HookABC
+            src = f"def {name}(p1: HABC):\n    LOG.append(['offender', [p1], {{}}, None, None])\n    return None\n"
+            fname = f"<vf:off{id(self)}>"
+            linecache.cache[fname] = (len(src), None, src.splitlines(True), fname)
+            exec(compile(src, fname, "exec"), self.ns, self.ns)
+            return self.ns[name]
         raise ValueError(kind)
 
     def new_function(self, upto=None, with_offender_at=None):
@@ -132,6 +157,7 @@ class Scenario:
 
     def call(self, ov, call):
         # through the function object users hold (ov.dispatch), like f(...)
+        self.ns["BUDGET"][0] = self.budget
         return self.ob.call(ov.dispatch, call, resolve=False)
 
 
@@ -230,7 +256,7 @@ def run_fault_job(job):
             e.__traceback__ = None
             return k, ctx
 
-    natural_build_offender = off is not None and off["kind"] != "hookraise"
+    natural_build_offender = off is not None and off["kind"] not in ("hookraise", "subclasshook")
     trigger_call = job["trigger"]
     n = (inj or {}).get("n", 0)
     if phase == "first":
@@ -250,10 +276,10 @@ def run_fault_job(job):
         kind, ctx = guarded(do, n)
     else:  # cache miss
         ov = sc.new_function(with_offender_at=off["at"] if off else None)
-        if off and off["kind"] == "hookraise":
+        if off and off["kind"] in ("hookraise", "subclasshook"):
             sc.hookstate["armed"] = False
         sc.call(ov, job["warm"])
-        if off and off["kind"] == "hookraise":
+        if off and off["kind"] in ("hookraise", "subclasshook"):
             sc.hookstate["armed"] = True
             sc.hookstate["n"] = 0
         kind, ctx = guarded(lambda: sc.call_raise(ov, trigger_call), n)
@@ -286,6 +312,9 @@ def run_fault_job(job):
                 steps.append({"op": "remove", "result": "none"})
         for call in probes:
             obs = sc.call(ov, call)
+            if obs.get("err", "").endswith("hook failure"):
+                # the user's hook raised again, during this probe: the fault itself, not a dispatch result
+                obs["kind"] = "config"
             steps.append({"op": "probe", "round": rnd, "call": call, "obs": obs,
                           "offender_present": offender_present,
                           "offender_blocks_build": bool(natural_build_offender and offender_present),
